@@ -5,8 +5,8 @@
   `step` from `init fs0`, for EVERY initial file system `fs0`, EVERY scenario
   `sc` (compress / decompress, ±k, ±f, any list of work() events) and EVERY
   behaviour of the environment (`Inj` at every step: an errno for the call, a
-  signal before / after it — SIGINT, SIGTERM, SIGKILL —, the race bit
-  `swallow`, a failing cleanup unlink).  The only hypothesis on the scenario
+  signal before / after it — SIGINT, SIGTERM, SIGKILL —, the asynchrony bit
+  `defer`, a failing cleanup unlink).  The only hypothesis on the scenario
   is that input and output path differ (`sc.inP ≠ sc.outP`; the output name is
   the input name with a suffix added or removed).
 -/
